@@ -417,6 +417,19 @@ pub fn check_c12(input: &str, stats: &mut Stats) {
     if first.as_ref().is_some_and(|p| p.ok()) {
         check_marked(input, stats);
     }
+    // the same rules on the CRLF / CR spelling of the input (positions are recounted on that text)
+    if !input.contains('\r') && input.contains('\n') && crate::util::fnv64(input.as_bytes()) % 3 == 0 {
+        for (name, variant) in [("crlf", input.replace('\n', "\r\n")), ("cr", input.replace('\n', "\r"))] {
+            let vchars: Vec<char> = variant.chars().collect();
+            let vtable = recount_table(&vchars);
+            for (cfg, it) in [("StrInput", false), ("BufferedInput", true)] {
+                if let Ok(p) = catch(|| if it { parse_iter(&variant) } else { parse_str(&variant) }) {
+                    stats.cnt("line_break_variants_checked", 1);
+                    check_positions(&variant, &vchars, &vtable, &p, &format!("{name}/{cfg}"), stats);
+                }
+            }
+        }
+    }
     let nt = first.as_ref().is_some_and(nontrivial);
     stats.eval(if nt { Some(input.as_bytes()) } else { None });
     if nt && stats.want_sample() && input.len() > 3 {
